@@ -129,6 +129,24 @@ func TestC15_Errors(t *testing.T) {
 				judge(t, "c15.error", c15Check, c)
 			}
 		}
+		// counts that equal an acceptable one modulo 2^8 or 2^16
+		for li, l := range allLangs() {
+			for _, k := range []int{256 + 12, 256 + 24, 512 + 15, 65536 + []int{12, 15, 18, 21, 24}[li%5]} {
+				if k > 1000 && li%3 != 0 && !thorough() {
+					continue
+				}
+				idx := gen.ExtremeIndices(l, 12, false, li)
+				ws := make([]string, 0, k)
+				for i := 0; i < k-12; i++ {
+					ws = append(ws, ref.Golden(l)[idx[0]])
+				}
+				ws = append(ws, ref.Words(l, idx)...)
+				c := &errCase{Lang: l.Name(), Text: text(strings.Join(ws, " ")), Want: "count"}
+				c15Record(c, l)
+				cov.Class("count-wraps-to-acceptable")
+				judge(t, "c15.error", c15Check, c)
+			}
+		}
 		cov.Exhaustive("word counts 0..40 outside the five acceptable ones x 10 languages")
 	}
 	rapidCheck(t, c15ErrorsProp)
